@@ -97,7 +97,9 @@ pub fn run(suite: &str, seed: u64, n: usize, corpus: Option<&Path>) -> Vec<Case>
         "analyze" => analyze(seed, n, corpus),
         "completion" => completion(seed, n, corpus),
         "break_eq" => break_eq(seed, n, corpus),
-        "strong" => strong(seed, n, corpus),
+        "strong" => strong(seed, n, corpus, false),
+        "strong_text" => strong(seed, n, corpus, true),
+        "tptp" => tptp(seed, n, corpus),
         "substitute" => substitute(seed, n, corpus),
         "rewrite" => rewrite(seed, n, corpus),
         "simplify" => simplify(seed, n, corpus),
@@ -261,6 +263,7 @@ pub fn programs(seed: u64, n: usize, corpus: Option<&Path>, names: &[&str]) -> V
         g.npreds = 2 + g.rng.below(5);
         let depth = g.rng.below(3);
         let max_rules = 1 + g.rng.below(4);
+        g.hostile = g.rng.chance(1, 6);
         out.push((format!("seed:{seed}:{i}"), g.program(max_rules, depth)));
     }
     out
@@ -410,7 +413,7 @@ pub fn problem_sexp(p: &problem::Problem) -> String {
     )
 }
 
-fn strong(seed: u64, n: usize, corpus: Option<&Path>) -> Vec<Case> {
+fn strong(seed: u64, n: usize, corpus: Option<&Path>, text: bool) -> Vec<Case> {
     let mut cases = vec![];
     let mut rng = Rng::new(seed ^ 0x55);
     let progs = programs(seed ^ 0x55, 2 * n, corpus, &["programs"]);
@@ -424,7 +427,8 @@ fn strong(seed: u64, n: usize, corpus: Option<&Path>) -> Vec<Case> {
         let simplify = rng.chance(1, 2);
         let brk = rng.chance(1, 2);
         let req = format!(
-            "(strong {} {} {} {} {} {} {} {PASS_BOUND})",
+            "({} {} {} {} {} {} {} {} {PASS_BOUND})",
+            if text { "strong_text" } else { "strong" },
             sexp::program(&left), sexp::program(&right),
             if dec == Decomposition::Independent { "independent" } else { "sequential" },
             match dir { fol::Direction::Universal => "universal", fol::Direction::Forward => "forward", fol::Direction::Backward => "backward" },
@@ -433,11 +437,28 @@ fn strong(seed: u64, n: usize, corpus: Option<&Path>) -> Vec<Case> {
         let imp = guarded(move || {
             let task = StrongEquivalenceTask { left, right, decomposition: dec, direction: dir, formula_representation: rep, simplify, break_equivalences: brk };
             match task.decompose() {
+                Ok(w) if text => sexp::list(w.data.iter().map(|p| format!("({} {})", sexp::q(&p.name), sexp::q(&p.to_string())))),
                 Ok(w) => sexp::list(w.data.iter().map(problem_sexp)),
                 Err(_) => "(error)".to_string(),
             }
         });
-        cases.push(Case { req, nontrivial: true, imp, tag: "strong", origin: origin.clone() });
+        cases.push(Case { req, nontrivial: true, imp, tag: if text { "strong_text" } else { "strong" }, origin: origin.clone() });
+    }
+    cases
+}
+
+fn tptp(seed: u64, n: usize, corpus: Option<&Path>) -> Vec<Case> {
+    use anthem::formatting::fol::sigma_0::tptp::Format;
+    let mut cases = vec![];
+    let mut rng = Rng::new(seed ^ 0x66);
+    for (origin, f) in formulas(seed ^ 0x66, n, corpus, &["formulas"]) {
+        // sprinkle extreme numerals
+        let f = if rng.chance(1, 40) {
+            fol::Formula::BinaryFormula { connective: fol::BinaryConnective::Conjunction, lhs: Box::new(f), rhs: Box::new(fol::Formula::AtomicFormula(fol::AtomicFormula::Atom(fol::Atom { predicate_symbol: "p".into(), terms: vec![fol::GeneralTerm::IntegerTerm(fol::IntegerTerm::Numeral(if rng.chance(1, 2) { isize::MIN } else { isize::MAX }))] }))) }
+        } else { f };
+        let input = sexp::formula(&f);
+        let imp = guarded(move || sexp::q(&Format(&f).to_string()));
+        cases.push(Case { req: format!("(tptp_formula {input})"), nontrivial: true, imp, tag: "tptp", origin });
     }
     cases
 }
